@@ -6,7 +6,7 @@ from collections import Counter
 
 import asyncstdlib as A
 
-from ..loop import CTX, Driver, Suspend, rr_strategy
+from ..loop import CTX, Cancel, Driver, Suspend, rr_strategy
 from ..probes import PLANNED, PLANNED_NAMES, Planned
 from ..sched import explore
 
@@ -48,7 +48,7 @@ def cases(tier, seed, shard, nshards):
             calls = [[rng.choice(["ret", "ret", "raise"]) for _ in range(rng.randint(1, 5 if nt == 1 else 3))] for _ in range(nt)]
             susp = {"enter": rng.choice([0, 1, 2]), "body": rng.choice([0, 1, 2]), "exit": rng.choice([0, 1, 2])}
         manager = rng.choice(["generator", "generator", "class", "lease"])
-        yield {"mode": mode, "manager": manager, "suppress": rng.random() < 0.4,
+        yield {"mode": mode, "manager": manager, "suppress": rng.choice([False, False, False, True, True, "all"]),
                "direct": rng.random() < 0.25 and manager != "lease",
                "calls": calls, "susp": susp, "cancel_task": rng.randrange(nt) if rng.random() < 0.45 else None,
                "runs": DFS_LIMIT[tier] if mode == "dfs" else RANDOM_RUNS[tier], "seed": rng.randrange(1 << 30),
@@ -71,6 +71,15 @@ def execute(case, choose, cancel_at=None):
     counter = {"gid": 0, "call": 0}
     susp = case["susp"]
     suppress = case["suppress"]
+
+    def suppressed(exc):
+        """Does this scenario's manager swallow ``exc``?  True: Exceptions only; "all": every BaseException the BODY
+        raises as well (the driver's own cancellation is never swallowed)."""
+        if exc is None or not suppress:
+            return False
+        if suppress == "all":
+            return not isinstance(exc, Cancel)
+        return isinstance(exc, Exception)
 
     translated = {}
 
@@ -101,7 +110,7 @@ def execute(case, choose, cancel_at=None):
                 ev.append((CTX.current, "exit", gid, exc))
                 if susp["exit"]:
                     await Suspend(("exit", gid), susp["exit"])
-                if suppress and isinstance(exc, Exception):
+                if suppressed(exc):
                     return
                 translate(exc)
                 raise
@@ -148,9 +157,9 @@ def execute(case, choose, cancel_at=None):
                 self.busy = False
                 if susp["exit"]:
                     await Suspend(("exit", self.gid), susp["exit"])
-                if exc is not None and not (suppress and isinstance(exc, Exception)):
+                if exc is not None and not suppressed(exc):
                     translate(exc)
-                return bool(suppress and isinstance(exc, Exception))
+                return suppressed(exc)
 
         deco = Lease()
     else:
@@ -173,9 +182,9 @@ def execute(case, choose, cancel_at=None):
                 ev.append((CTX.current, "exit", "shared", exc))
                 if susp["exit"]:
                     await Suspend(("exit", "shared"), susp["exit"])
-                if exc is not None and not (suppress and isinstance(exc, Exception)):
+                if exc is not None and not suppressed(exc):
                     translate(exc)
-                return bool(suppress and isinstance(exc, Exception))
+                return suppressed(exc)
 
         deco = Manager()
 
@@ -287,8 +296,7 @@ def execute(case, choose, cancel_at=None):
                 outcome = evs[-1][3]
                 if how == "ret":
                     want_out = ("ok", ("result", cid))
-                elif suppress and isinstance(raised.get(cid), Exception):
-                    # (the scenario's managers suppress Exceptions only, like most real ones)
+                elif suppressed(raised.get(cid)):
                     want_out = ("ok", None)
                 else:
                     want_out = ("raise", translated.get(id(raised.get(cid)), (0, raised.get(cid)))[1])
